@@ -108,10 +108,15 @@ func c14Members(p *load.Program, r *oblig.Report) {
 	wantG := ""
 	loopG := "next(range(" + clean(an.Shape(resultMap)) + "))#0"
 	inLoop := false
-	for _, c := range guardCanon(sortCall) {
-		if c == loopG {
-			inLoop = true
+	for d, child := sortCall.Block().Idom(), sortCall.Block(); d != nil; d, child = d.Idom(), d {
+		iff, _ := an.IfCond(d)
+		if iff == nil || clean(an.Shape(iff.Cond)) != loopG || !edgeControls(d, 0, child) {
+			continue
 		}
+		// every pass through the loop body sorts (a disjunctive guard would leave no dominating condition)
+		header := d
+		q := an.PathQuery{Fn: fn, Stop: func(i ssa.Instruction) bool { return i == ssa.Instruction(sortCall) }, Target: func(i ssa.Instruction) bool { return i.Block() == header && i == header.Instrs[0] }}
+		inLoop = q.ReachableFrom(an.Point{B: d.Succs[0], Idx: -1}) == nil
 	}
 	// the return is reached only through the end of that loop
 	okAfter := false
@@ -216,7 +221,10 @@ func c14Partitions(p *load.Program, r *oblig.Report) {
 }
 
 // guardCanon is guardOf with canonical shapes (idx(...), sorted commutative operands, oriented comparisons).
-func guardCanon(at ssa.Instruction) []string {
+func guardCanon(at ssa.Instruction) []string { return guardWith(at, an.ShapeCanon) }
+
+// guardWith is guardCanon with a chosen renderer.
+func guardWith(at ssa.Instruction, render func(ssa.Value) string) []string {
 	var conds []string
 	for d, child := at.Block().Idom(), at.Block(); d != nil; d, child = d.Idom(), d {
 		iff, _ := an.IfCond(d)
@@ -241,12 +249,12 @@ func guardCanon(at ssa.Instruction) []string {
 			c = u.X
 			onTrue = !onTrue
 		}
-		s := clean(an.ShapeCanon(c))
+		s := clean(render(c))
 		if bo, isB := c.(*ssa.BinOp); isB && !onTrue {
 			// negate comparisons in place so that the orientation is canonical
 			neg := map[token.Token]token.Token{token.LSS: token.GEQ, token.GEQ: token.LSS, token.GTR: token.LEQ, token.LEQ: token.GTR, token.EQL: token.NEQ, token.NEQ: token.EQL}
 			if nop, has := neg[bo.Op]; has {
-				a, b := clean(an.ShapeCanon(bo.X)), clean(an.ShapeCanon(bo.Y))
+				a, b := clean(render(bo.X)), clean(render(bo.Y))
 				switch nop {
 				case token.LEQ:
 					a, b, nop = b, a, token.GEQ
@@ -294,6 +302,17 @@ func isLoopCond(c string) bool {
 		}
 	}
 	return false
+}
+
+// selCondsNamed is selConds with memory-resident locals rendered by name.
+func selCondsNamed(at ssa.Instruction) []string {
+	var out []string
+	for _, c := range guardWith(at, an.ShapeCanonNamed) {
+		if !isLoopCond(c) {
+			out = append(out, c)
+		}
+	}
+	return out
 }
 
 // selConds: the non-loop conditions under which an instruction runs, canonical.
